@@ -2,6 +2,7 @@ package verifsim
 
 import (
 	"os"
+	"strings"
 	"testing"
 	"time"
 )
@@ -213,6 +214,15 @@ func Shrink(t *testing.T, P Property, p *Plan, v *Violation) *Plan {
 		if best.Params.Limit > 0 {
 			c := best.Clone()
 			c.Params.Limit = -1
+			if c.CLI != nil {
+				var argv []string
+				for _, a := range c.CLI.Argv {
+					if !strings.HasPrefix(a, "--limit") {
+						argv = append(argv, a)
+					}
+				}
+				c.CLI.Argv = argv
+			}
 			if try(c) {
 				progress = true
 			}
